@@ -32,14 +32,14 @@ PROPS = {
         'trusted': [],
     },
     'C11': {
-        'suites': [('subsh', 1500, 60000)],
+        'suites': [('subsh', 1500, 60000), ('w_c11', 150, 5500)],
         'rule': 'subsh: same generator as sub (40% of subscriptions shared, 2 groups, 3 clients incl. one client in several groups on one filter); '
                 'oracle on the purely-shared and mixed lookups; non-trivial = >=3 ops and at least one lookup returns an entry',
         'assumptions': ['share names contain no "/" (wf_ops)'],
         'trusted': [],
     },
     'C07': {
-        'suites': [('ret', 1500, 60000)],
+        'suites': [('ret', 1500, 60000), ('w_c07', 150, 6000)],
         'rule': 'ret: random histories (0-25 ops) of AddOrReplace/Remove/ClearAll over a pool of 2-8 topics built from levels {a,b,"",$s,ab} (prefix-related, $ topics), '
                 'then lookups: GetMatchedMessages for ~10 filters of every shape, GetRetainedMessage, Iterate; non-trivial = >=3 ops and a non-empty answer',
         'assumptions': ['messages are compared field by field (all Message fields)'],
@@ -55,7 +55,7 @@ PROPS = {
         'trusted': ['persistence/queue/mem/verif_hooks.go (VerifShift, VerifReadWouldBlock, VerifDrained)'],
     },
     'C03': {
-        'suites': [('lim', 2000, 100000), ('w_c03', 250, 10000)],
+        'props': ['C03', 'C03w'], 'suites': [('lim', 2000, 100000), ('w_c03', 250, 10000)],
         'rule': 'lim: random histories of poll/release/batchRelease/markUsed/close on the real packetIDLimiter (limits 1..65535, forced wrap 65535->1 by presetting the cursor); '
                 'non-trivial = a poll returned ids and (a poll blocked or the ids wrapped). '
                 'w_c03: wire scenarios: 1-2 persistent subscriber sessions (v3.1/3.1.1/5, Receive Maximum absent/1/2/3/5/65535, max_inflight 1..65535), a publisher and api_publish, acks prompt/late/out of order/never/'
@@ -74,7 +74,7 @@ PROPS = {
         'assumptions': [], 'trusted': [],
     },
     'C13': {
-        'suites': [('alias', 2000, 100000)],
+        'suites': [('alias', 2000, 100000), ('w_c13', 200, 6000)],
         'rule': 'alias: topic sequences over a pool of 1-8 topics against the fifo alias manager with maxima 0,1,2,3,5,65535; non-trivial = an alias was reused and an eviction happened',
         'assumptions': [], 'trusted': [],
     },
@@ -106,7 +106,7 @@ PROPS = {
         'trusted': ['harness/wire_runner.go quiescence barrier and independent codec (harness/WIRE.md)'],
     },
     'C08': {
-        'suites': [('w_c08', 60, 3000)],
+        'suites': [('w_c08', 150, 3000)],
         'rule': 'w_c08: 1-3 observers with arbitrary (incl. shared, $-topic) subscriptions, 2-3 will clients (v3.1/3.1.1/5, will QoS/retain/properties/Will Delay absent,0,1,100, Session Expiry absent,0,1,100,2^32-1), '
                 'every way of ending a connection (close, DISCONNECT 0x00/0x04 with or without expiry, protocol errors, keep-alive timeout, take-over, TerminateSession online/offline), real sleeps of 0.4/1.3/1.8 s around 1 s timers, '
                 'OnWillPublish drop/rewrite hook; oracle: the will is published exactly once, when due, to the then-matching subscribers with its fields, never after DISCONNECT 0x00 nor after a resume, retained wills are stored and replayed',
@@ -160,8 +160,16 @@ PROPS = {
         'trusted': ['/verif/gen translators report what the source says (go/parser + go/types based; loud failure on constructs they do not understand)', '/verif/stress harness; Go race detector'],
     },
     'C14': {
-        'suites': [], 'static': static_c14.static, 'props': [],
+        'suites': [('w_c14', 200, 6000)], 'static': static_c14.static, 'props': ['C14'],
         'rule': 'static: Gen/HookKinds.v regenerated from server/plugin.go, hook.go, server.go (one row per HookWrapper field: collected / applied / loop direction / base / store)',
         'assumptions': [], 'trusted': ['/verif/gen translators report what the source says'],
+    },
+    'C20': {
+        'suites': [('w_c20', 200, 6000)],
+        'rule': 'w_c20: wire workloads of up to three client ids (v3.1/3.1.1/5; all packet types incl. AUTH, QoS 0-2, drops of every kind: queue full, expired, in-flight expired, exceeds maximum packet size; reconnects, take-overs, terminate, session expiry) with an (inspect) after every step; '
+                'the statistics returned by StatsManager are compared field by field with (a) the extracted Coq model of stats.go driven by the event log and (b) the ground truth computed from the packet log, queue contents and session tables',
+        'assumptions': ['PINGREQ/PINGRESP counters are removed by the runner (its barrier pings)', 'drop ground truth is the OnMsgDropped hook log',
+                        'steps where the queue prediction is contradicted by the packets (silent eviction of an expired PUBREL entry) are outside the family'],
+        'trusted': ['harness/w_c20.go, ocaml/o_c20.ml (event log construction)'],
     },
 }
